@@ -26,6 +26,7 @@ func init() {
 			"ebpf.Loader.AddSubscriber", "ebpf.Loader.AddVLANSubscriber", "ebpf.Loader.AddCircuitIDMapping", "ebpf.Loader.AddCircuitIDSubscriber",
 			"ebpf.HashCircuitID", "ebpf.IPToUint32", "ebpf.MACToUint64",
 			// DHCPv6 pools and the RELEASE / DECLINE paths
+			"dhcpv6.NewAddressPool", "dhcpv6.nextIPv6", "dhcpv6.copyIPv6",
 			"dhcpv6.AddressPool.Allocate", "dhcpv6.AddressPool.Release", "dhcpv6.AddressPool.Quarantine",
 			"dhcpv6.PrefixPool.Allocate", "dhcpv6.PrefixPool.Release",
 			"dhcpv6.Server.releaseAddress", "dhcpv6.Server.releasePrefix", "dhcpv6.Message.GetOption",
